@@ -488,6 +488,27 @@ fn cons_check(out: &mut String) {
                 bad.push(format!("to_vec of {} gives {:?}, to_ref_vec gives {:?}", printed[i], a, b));
             }
         }
+        if let Value::Cons(cell) = v {
+            // consuming traversals of a copy: every element once, the tail attached to the last
+            cases += 2;
+            let (refs, rtail) = cell.to_ref_vec();
+            let want_items: Vec<String> = refs.iter().map(|x| lexpr::to_string(x).unwrap()).collect();
+            let want_tail = lexpr::to_string(rtail).unwrap();
+            let (owned, tail) = cell.clone().into_vec();
+            let got_items: Vec<String> = owned.iter().map(|x| lexpr::to_string(x).unwrap()).collect();
+            if got_items != want_items || lexpr::to_string(&tail).unwrap() != want_tail {
+                bad.push(format!("into_vec of {} gives {:?} . {}, expected {:?} . {}", printed[i], got_items, tail, want_items, want_tail));
+            }
+            let mut it_items: Vec<String> = Vec::new();
+            let mut it_tails: Vec<String> = Vec::new();
+            for (x, rest) in cell.clone().into_iter() {
+                it_items.push(lexpr::to_string(&x).unwrap());
+                if let Some(r) = rest { it_tails.push(lexpr::to_string(&r).unwrap()); }
+            }
+            if it_items != want_items || it_tails != vec![want_tail.clone()] {
+                bad.push(format!("into_iter of {} yields {:?} with tails {:?}, expected {:?} with the one tail {}", printed[i], it_items, it_tails, want_items, want_tail));
+            }
+        }
         for (j, w) in vals.iter().enumerate() {
             cases += 1;
             let want = printed[i] == printed[j];
